@@ -12,8 +12,8 @@ from vmc.core import scratch
 ID = "C17"
 LEVEL = "model_checking"
 RULE = ("3 common bin tables x cell-name sets = EVERY non-empty subset (size 1..3) of 6 names (plain, underscore, dot, space, numeric, "
-        "non-ASCII) x EVERY assignment of 4 matrices (incl. the empty one) to the cells x bins given once | per cell with an extra column "
-        "whose values differ per cell x storage mode. Oracle: list_scool_cells == {/cells/<name>}; is_scool_file; Cooler(file::/cells/x) "
+        "non-ASCII) x EVERY assignment of 4 matrices (incl. the empty one) to the cells x bins given once | once with an extra column | per cell with an extra column "
+        "whose values differ per cell, placed last, first or between the coordinate columns x storage mode. Oracle: list_scool_cells == {/cells/<name>}; is_scool_file; Cooler(file::/cells/x) "
         "reads pixels == that cell's input and bins == common table (+ that cell's extra column); the HDF5 objects cells/x/bins/{chrom,"
         "start,end} ARE the root's /bins objects (same object address: stored once); V per cell. Non-trivial: >=2 cells with different "
         "matrices. Distinct by construction.")
@@ -35,8 +35,10 @@ def units(tier):
     th = tier == "thorough"
     for ti in range(3):
         for symm in (True, False):
-            for per_cell in (False, True):
+            for per_cell in (False, True, "first", "middle", "once+extra"):
                 main = th or (ti == 0 and symm and not per_cell)
+                if per_cell in ("first", "middle", "once+extra") and not th and not (symm or ti == 1):
+                    continue
                 for size in (1, 2, 3):
                     if size == 3 and not main:
                         continue
@@ -66,16 +68,24 @@ def run(unit, R, tier, only=None):
         R.add("states")
         R.add("transitions", 1 + 3 * len(names))
         R.cls("cells:%d" % len(names))
-        R.cls("bins:per-cell" if per_cell else "bins:once")
+        R.cls("bins:once" if not per_cell else "bins:once+extra" if per_cell == "once+extra" else "bins:per-cell")
+        if per_cell in ("first", "middle"):
+            R.cls("bins:per-cell-column-order")
         R.cls("mode:symm" if symm else "mode:square")
         pix = {nm: fx.pixvals(M[a], n, scale=q + 1) for q, (nm, a) in enumerate(zip(names, assign))}
         frames = {nm: fx.frame(pix[nm], ("count",)) for nm in names}
-        if per_cell:
+        order = {True: ["chrom", "start", "end", "cov"], "first": ["cov", "chrom", "start", "end"], "middle": ["chrom", "start", "cov", "end"]}
+        if per_cell == "once+extra":
+            # ONE common table that carries an extra column (placed between the coordinates): every cell must carry it
+            b = build.bins_df(bins)
+            b["cov"] = [7.0 + k for k in range(n)]
+            barg = b[["chrom", "cov", "start", "end"]]
+        elif per_cell:
             bdict = {}
             for q, nm in enumerate(names):
                 b = build.bins_df(bins)
                 b["cov"] = [10.0 * (q + 1) + k for k in range(n)]
-                bdict[nm] = b
+                bdict[nm] = b[order[per_cell]]       # the extra column at the end, first, or between the coordinate columns
             barg = bdict
         else:
             barg = build.bins_df(bins)
@@ -116,7 +126,10 @@ def run(unit, R, tier, only=None):
                     bt = clr.bins()[:]
                     if list(zip(bt["chrom"].astype(str), bt["start"].tolist(), bt["end"].tolist())) != [tuple(b) for b in bins]:
                         R.mismatch("cell-bins!=common-table", ci, "")
-                    if per_cell:
+                    if per_cell == "once+extra":
+                        if "cov" not in bt.columns or bt["cov"].tolist() != [7.0 + k for k in range(n)]:
+                            R.mismatch("extra-column-of-the-common-table-lost", ci, f"{bt['cov'].tolist() if 'cov' in bt.columns else 'missing'}")
+                    elif per_cell:
                         if "cov" not in bt.columns or bt["cov"].tolist() != [10.0 * (q + 1) + k for k in range(n)]:
                             R.mismatch("per-cell-bin-column-not-kept-per-cell", ci, f"{bt['cov'].tolist() if 'cov' in bt.columns else 'missing'}")
                     Mx = np.zeros((n, n))
